@@ -297,6 +297,15 @@ theorem clear_resets (sched : Nat → Ev) (k : Nat) (h : sched k = .clear ∨ sc
     ∀ i, (stateAt sched (k + 1)).traps i = {} := by
   rcases h with h | h <;> simp [stateAt, h, step]
 
+/-- `ON event GOSUB n` / `ON event GOSUB 0` only sets / removes the handler line: whether the trap is
+    ON/OFF/STOPped, a remembered occurrence and the busy state (code: `enabled`, `stopped`, `triggered`)
+    are untouched, so `GOSUB 0` followed by a new `GOSUB n` neither re-admits a busy or STOPped trap
+    nor forgets an occurrence. -/
+theorem set_handler_keeps_state (sched : Nat → Ev) (k i : Nat) (b : Bool) (h : sched k = .setHandler i b) :
+    (S sched (k + 1)).traps i = { (S sched k).traps i with hasHandler := b } ∧
+    (stateAt sched (k + 1)).traps i = { (stateAt sched k).traps i with hasGosub := b } := by
+  simp [S, sstateAt, stateAt, h, sstep, step, setTrap]
+
 /-- **Only while a program is running.** -/
 theorem only_while_running (sched : Nat → Ev) (k : Nat) (h : (stateAt sched k).run = false) :
     firesAt sched k = [] := by
